@@ -429,7 +429,7 @@ theorem sLoop_succ (cx : RCtx R) (f : Nat) (hR : SRender cx f) (hL : SLoop cx f)
           | some (k, v) => if v.isUndefined = true then { it with value := none } else ({ value := some v, key := k } : LoopItem)
           | none => { it with value := none })
         | _ => it
-      else ({ value := set.getIdx idx, key := if cx.loopKeyReset = true then [] else it.key } : LoopItem)) = it'
+      else ({ value := set.getIdx idx, key := [] } : LoopItem)) = it'
     have hlen : ({ st with items := st.items.set lf.level it' } : RState).items.length = st.items.length := by
       simp
     have hinner : Safe (if it'.value.isSome = true then
